@@ -194,12 +194,17 @@ func buildWith(r *RNG, role byte, ps []*probe, extra ...goldmark.Option) goldmar
 
 func runC20(c *Ctx) {
 	c.Rep.Rule = "a case is (component role, probes with id/priority/trigger/kinds/accept flag in registration order); distinct by hash; non-trivial = at least 2 components compete for the same trigger or kind"
-	pool := []int{50, 150, 450, 550, 950, 1050, -7, 2000, math.MinInt, math.MaxInt, math.MinInt + 1, math.MaxInt - 1}
-	roles := []byte{'a', 'b', 'c', 'd', 'e'}
 	n := 4000
 	if !c.Quick() {
 		n = 80000
 	}
+	prioScenarios(c, n, []byte{'a', 'b', 'c', 'd', 'e'})
+}
+
+// prioScenarios: random sets of probe components per role, run through goldmark; the observed
+// invocation order is compared with the priority oracle and sent to the dispatch model.
+func prioScenarios(c *Ctx, n int, roles []byte) {
+	pool := []int{50, 150, 450, 550, 950, 1050, -7, 2000, math.MinInt, math.MaxInt, math.MinInt + 1, math.MaxInt - 1}
 	for it := 0; it < n; it++ {
 		role := roles[it%len(roles)]
 		k := 1 + c.R.Intn(4)
